@@ -220,10 +220,9 @@ def judge_and_handle(ctx, cases, name, kind, parallel):
     return good
 
 
-def replay(ctx):
+def replay(ctx, rec):
     """./check C15 --replay <file>: that one case again through the real polygonize() and the judge"""
-    blob = json.load(open(ctx.replay))
-    job = dict(blob["case"]["job"], idx=-1, base=[], maskenum=0)
+    job = dict(rec["case"]["job"], idx=-1, base=[], maskenum=0)
     cases = core.run_jobs("polygonize_worker", [job], nproc=1)
     good = judge_and_handle(ctx, cases, "replay", "replay", parallel=1)
     print("REPLAY verdict: %s" % ("ok" if (good and not ctx.violations) else
@@ -241,8 +240,6 @@ def run(ctx):
         "NaN cell values, non-invertible transforms and the geopandas / spatialpandas / awkward return types are "
         "not exercised",
     ]
-    if ctx.replay:
-        return replay(ctx)
     rng = random.Random(ctx.seed * 7919 + 15)
     cfgs = mc_configs(ctx.tier)
     # ---- M
